@@ -225,7 +225,7 @@ def tiers(thorough):
     q_wide = dict(MC_WIDE1, MatcherKinds=S("none", "eq", "empty", "reopt"), MatcherKindsB=S("none", "empty"), CmpOps=S(">="), ArithOps=S("*"),
                   MatchSets=S(S(), S("a")), GroupIncs=S(S(), S("b")), DBC=S(), DBVals=S(1))
     return [("join", q_join, 800), ("static", MC_STATIC, 800), ("unary", dict(MC_UNARY, DBVals=S(1)), 1200), ("wide1", q_wide, 1500),
-            ("nest", MC_NEST, 500), ("nestbin", MC_NESTBIN, 500), ("cond", MC_COND, 700), ("absent", MC_ABSENT, 500),
+            ("nest", MC_NEST, 1100), ("nestbin", MC_NESTBIN, 500), ("cond", MC_COND, 700), ("absent", MC_ABSENT, 500),
             ("grpnest", MC_GRPNEST, 500), ("lrepchain", MC_LREPCHAIN, 500)], 25, 1200
 
 
@@ -284,7 +284,7 @@ def run(ctx, prop, cases_override=None):
         # ---- MC: exhaustive slices; model-level counterexamples are leads, replayed below on the real code
         for name, consts, target in slices:
             r = ctx.tlc("LabelFlow", "lf_mc_%s.cfg" % name, files={"lf_mc_%s.cfg" % name: cfg_text(consts, [lead_inv, "EmitCase"], fixes)},
-                        timeout=5000, workers=workers, tag="MC-" + name, heap="8g")
+                        timeout=5000, workers=workers, tag="MC-" + name, heap="4g")
             mc_runs.append({"distinct": r["distinct"], "generated": r["generated"]})
             ls = [v[0] for v in prints(r, "LEAD")]
             cs = [v[0] for v in prints(r, "CASE")]
@@ -328,8 +328,8 @@ def run(ctx, prop, cases_override=None):
     cpath = write_ndjson(ctx.path("lflow_cases.ndjson"), uniq)
     # ---- EXEC
     tpath = ctx.path("lflow_trace.ndjson")
-    ndb = 400 if thorough else 60
-    ctx.vh("exec-lflow", cpath, tpath, env={"LF_NDB": str(ndb), "LF_NPREM": str(ndb), "LF_NCONC": "4" if thorough else "2"}, timeout=3000)
+    ndb = 300 if thorough else 60
+    ctx.vh("exec-lflow", cpath, tpath, env={"LF_NDB": str(ndb), "LF_NPREM": str(ndb), "LF_NCONC": "4" if thorough else "2"}, timeout=7000)
     trace = read_ndjson(tpath)
     if len(trace) != len(uniq):
         raise MachineryError("EXEC returned %d records for %d cases" % (len(trace), len(uniq)))
@@ -348,7 +348,7 @@ def run(ctx, prop, cases_override=None):
         sub.tlc_stats, sub.notes, sub._vh, sub._pint = [], [], {}, {}
         ppath = write_ndjson(sub.path("lflow_part.ndjson"), part)
         j = sub.tlc("LabelFlowTrace", "LabelFlowTrace.cfg", workers=1,
-                    files={"lflow_trace.ndjson": ppath, "LabelFlowTrace.cfg": TRACE_CFG % tla(fixes)}, timeout=5000, heap="4g", tag="JUDGE")
+                    files={"lflow_trace.ndjson": ppath, "LabelFlowTrace.cfg": TRACE_CFG % tla(fixes)}, timeout=5000, heap="3g", tag="JUDGE")
         sub.cleanup()
         return off, len(part), j, sub.tlc_stats
 
